@@ -10,6 +10,7 @@ import (
 	"github.com/evanphx/json-patch/v5/verifharness/core"
 	"github.com/evanphx/json-patch/v5/verifharness/gen"
 	"github.com/evanphx/json-patch/v5/verifharness/mon"
+	ref "github.com/evanphx/json-patch/v5/verifharness/ref6902"
 )
 
 type optSet struct {
@@ -227,6 +228,25 @@ func init() {
 				if c.WantSample() {
 					c.Sample(map[string]any{"doc": q(doc), "patch": q(patch), "options": o.String()})
 				}
+			}},
+			{Name: "relocation-chains", Count: n(30000, 1000000), Run: func(c *core.Ctx, idx int) {
+				// applicable chains of copy/move/add in which earlier destinations and sources are copied and
+				// moved into each other: a node shared between two locations becomes a cycle (fatal stack overflow)
+				o := optFromIndex(c.R.Intn(256))
+				o.allow, o.ensure, o.limit = false, false, 0
+				legacy := idx%3 == 0
+				prof := seqProf.With(func(p *gen.Profile) { p.ScalarBias = 25 })
+				if legacy {
+					prof = prof.With(func(p *gen.Profile) { p.Keys = gen.PlainKeys })
+				}
+				sc := GenMotionSeq(c.R, prof, ref.Opts{NegIdx: o.neg, Legacy: legacy}, 12, !legacy)
+				c.CountN("relocation-chains:ops", int64(len(sc.Ops)))
+				if legacy {
+					applyAllLegacy(c, sc.DocText, sc.Patch(), o)
+				} else {
+					applyAllV5(c, sc.DocText, sc.Patch(), o)
+				}
+				c.Nontrivial("r", sc.DocText, sc.Patch(), o.String())
 			}},
 			{Name: "mutated-inputs", Count: n(60000, 2000000), Run: func(c *core.Ctx, idx int) {
 				o := optFromIndex(c.R.Intn(256))
